@@ -21,9 +21,10 @@ for root, _, files in os.walk(src):
             tree = _StripDebug().visit(ast.parse(open(p).read()))
         except SyntaxError:
             continue
-        ref = {q: b for q, b in alpha.reference_of(tree).items() if b}
-        if ref:
-            out[rel] = ref
-            n += sum(len(b) for b in ref.values())
+        allref = alpha.reference_of(tree)
+        ref = {q: b for q, b in allref.items() if b}
+        n += sum(len(b) for b in ref.values())
+        ref["__functions__"] = sorted(allref)
+        out[rel] = ref
 json.dump(out, open(os.path.join(ROOT, "spec", "local_names.json"), "w"), indent=0, sort_keys=True)
 print("reference of %d locals in %d modules written" % (n, len(out)))
